@@ -250,7 +250,10 @@ def inject(args):
             curr_dict = dest_wrp.meta_ext.get_class_dict(curr_class)
             del curr_dict[key]
     class_dict = dest_wrp.meta_ext.get_class_dict(classification)
-    class_dict[key] = convert_values(args.values, args.type)
+    values = convert_values(args.values, args.type)
+    if classification != ('global', 'const') and not isinstance(values, list):
+        values = [values]
+    class_dict[key] = values
     nb.save(dest_nii, args.dest_nii[0])
     return 0
 
